@@ -160,7 +160,10 @@ def build_golden(env, d, small=False):
 
 def clone_golden(env, d):
     os.makedirs(d, exist_ok=True); shutil.copytree(os.path.join(env['golden'], 'tokens'), os.path.join(d, 'tokens'), symlinks=True)
-    return mkconf(d, env['backend'])
+    # every other case runs with log.level = DEBUG: the arguments of every log message the case reaches are then really formatted (with ERROR most messages return before vsnprintf)
+    global _CLONES; _CLONES += 1
+    return mkconf(d, env['backend'], 'log.level = DEBUG\n' if _CLONES % 2 else '')
+_CLONES = 0
 
 # ------------------------------------------------------------------------------------------------ (a) API fuzz
 def deep_state(mon, env, rnd, light=False):
